@@ -447,6 +447,10 @@ class Ctx:
             discarded_by_guard_band=self.discarded, theorems=self.proof_info['theorems'],
             proof_files=self.proof_info['files'], known_findings_reported=sorted(seen_known),
             notes=self.notes)
+        if not cov['obligations'] or cov['discharged'] != cov['obligations']:
+            # proof step did not complete: do not present proof-level keys
+            cov['obligations_found'] = cov.pop('obligations')
+            cov['discharged_found'] = cov.pop('discharged')
         if 'coqchk' in self.proof_info:
             cov['coqchk'] = self.proof_info['coqchk']
             cov['coqchk_axioms'] = self.proof_info.get('coqchk_axioms', [])
@@ -461,7 +465,7 @@ class Ctx:
         for ln in lines:
             print(ln)
         print('%s tier=%s seed=%d: obligations %d/%d, %d evaluations (%d distinct non-trivial), %d violation(s), %.1fs'
-              % (self.pid, self.tier, self.seed, cov['discharged'], cov['obligations'], self.evaluations,
+              % (self.pid, self.tier, self.seed, self.proof_info['discharged'], self.proof_info['obligations'], self.evaluations,
                  len(self.nontrivial), nviol, wall))
         shutil.rmtree(self.work, ignore_errors=True)
         return 1 if nviol else 0
